@@ -26,6 +26,7 @@ import (
 	"math/rand"
 	"net/http"
 	"os"
+	"runtime"
 	"runtime/debug"
 	"strings"
 	"sync"
@@ -203,7 +204,11 @@ func (h *history) start(is ...int) bool {
 		}
 		if err != nil {
 			h.cl.Metas[i].Running = false
-			r.Inconclusive(fmt.Sprintf("(d) %s: %v", h.id, err))
+			why := ""
+			if strings.Contains(err.Error(), "did not finish opening") {
+				why = " | " + openStacks()
+			}
+			r.Inconclusive(fmt.Sprintf("(d) %s: %v%s", h.id, err, why))
 			return false
 		}
 		h.down[i] = false
@@ -211,6 +216,39 @@ func (h *history) start(is ...int) bool {
 	}
 	h.renewHTTP()
 	return true
+}
+
+// openStacks summarises where the goroutines that are opening a meta store
+// are waiting (diagnostic text for an inconclusive restart).
+func openStacks() string {
+	buf := make([]byte, 16<<20)
+	buf = buf[:runtime.Stack(buf, true)]
+	var out []string
+	for _, g := range strings.Split(string(buf), "\n\n") {
+		if !strings.Contains(g, "services/meta.(*store).open") {
+			continue
+		}
+		var fr []string
+		for _, l := range strings.Split(g, "\n") {
+			if strings.HasPrefix(l, "goroutine ") || (!strings.HasPrefix(l, "\t") && l != "") {
+				if i := strings.LastIndex(l, "/"); i >= 0 && !strings.HasPrefix(l, "goroutine ") {
+					l = l[i+1:]
+				}
+				if j := strings.Index(l, "(0x"); j > 0 {
+					l = l[:j]
+				}
+				fr = append(fr, l)
+			}
+			if len(fr) >= 7 {
+				break
+			}
+		}
+		out = append(out, strings.Join(fr, " < "))
+	}
+	if len(out) == 0 {
+		return "no goroutine is inside store.open"
+	}
+	return strings.Join(out, " || ")
 }
 
 func (h *history) nDown() int {
